@@ -266,7 +266,39 @@ func runPerio(c *ctx) {
 		}
 		c.count(fmt.Sprintf("batch.total/N=%d", total/N))
 		e.reqs()
-		forwarder.VerifQueryMulti(e.g, m)
+		// the data plane answers with one report per URR asked for: what the query hands back must hold each registered URR's
+		// report once — also when the number of URRs is an exact multiple of the batch size
+		for _, kk := range []*simKernel{e.k, e.pk} {
+			kk.mu.Lock()
+			kk.reports = func(cmd uint8, seid uint64, urr uint32) [][]byte { return [][]byte{usaReportAttr(seid, urr)} }
+			kk.mu.Unlock()
+		}
+		got, qerr := forwarder.VerifQueryMulti(e.g, m)
+		nret, ndup, nforeign := 0, 0, 0
+		seen := map[[2]uint64]int{}
+		for sd, rs := range got {
+			for _, rp := range rs {
+				nret++
+				k2 := [2]uint64{sd, uint64(rp.URRID)}
+				seen[k2]++
+				if seen[k2] == 2 {
+					ndup++
+				}
+				known := false
+				for _, u := range m[sd] {
+					if u == rp.URRID {
+						known = true
+					}
+				}
+				if !known {
+					nforeign++
+				}
+			}
+		}
+		ret := fmt.Sprintf("ret=%d/%d/%d", nret, ndup, nforeign)
+		if qerr != nil {
+			ret = "ret=err"
+		}
 		var bs []string
 		for _, l := range append(e.k.takeLog(), e.pk.takeLog()...) {
 			parts := strings.Split(l, "/")
@@ -280,6 +312,6 @@ func runPerio(c *ctx) {
 		if len(bs) > 0 {
 			res = strings.Join(bs, "|")
 		}
-		c.emit("T perio.batch %d %s = %s", N, strings.Join(toks, " "), res)
+		c.emit("T perio.batch %d %s = %s %s", N, strings.Join(toks, " "), res, ret)
 	}
 }
